@@ -71,6 +71,7 @@ MANUAL = [
      "to float64 exactly; documented design of the static route, but the three front ends disagree (also C12)"),
     ("C01", "python_not_on_tensor_eager", r"eager:raises", "`not X` on a non-scalar BOOL tensor: Python's `not` cannot be overloaded, eager raises ValueError (truth value ambiguous) "
      "while the converter translates it to Not"),
+    ("C01", "loop_variable_assigned_bare_eager", r"eager:raises", "`v = i` with i a for-loop variable: eager mode binds i to a Python int, so v is a Python int after the loop and returning it raises TypeError ('Unexpected type <class int>'); the graph yields an INT64 tensor"),
     ("C01", "attribute_parameter_with_default_in_model_proto", r"model:(graph_differs_from_python_reading|graph_not_executable)",
      "to_model_proto() of a script function whose attribute parameters have defaults leaves Constant<value_*: @attr> reference attributes in the main graph: "
      "onnx.checker rejects the model and runtimes read the attribute as 0 instead of the default"),
